@@ -472,6 +472,19 @@ func (r *Resolver) resolve(ctx context.Context, rs *resolveState) (*dns.Msg, err
 			rs.isRoot = false
 			return r.resolve(ctx, rs)
 		}
+		if resp.Rcode == dns.RcodeNameError {
+			// A name error that brings neither SOA nor NSEC/NSEC3 is still
+			// a denial of existence. Validate it like one that does: under
+			// a signed chain it has no RRSIG and fails closed instead of
+			// reaching a validating client unproven, while CD=1 requests,
+			// unsigned zones and names below a proven insecure delegation
+			// pass unchanged.
+			result, resultErr := r.authority(ctx, rs.req, resp, rs.parentDS, rs.servers.Zone)
+			if resultErr == nil {
+				r.clearResolutionZoneFailure(rs.req.Question[0], rs.servers.Zone)
+			}
+			return result, resultErr
+		}
 		if serverFailureResponse {
 			r.recordResolutionZoneFailure(ctx, rs.req.Question[0], rs.servers.Zone, nil)
 		} else {
@@ -511,7 +524,14 @@ func (r *Resolver) resolve(ctx context.Context, rs *resolveState) (*dns.Msg, err
 		return r.processAuthoritySection(ctx, rs, minReq, resp, minimized) // handle delegation or authority data
 	}
 
-	// no answer, no authority. create new msg safer, sometimes received weird responses
+	// no answer, no authority. An empty NOERROR is a NODATA denial without
+	// its proof: it goes through the same validation as one that shows a
+	// SOA, so a signed zone cannot be made to deny a type by an empty reply.
+	if _, err := r.authority(ctx, rs.req, resp, rs.parentDS, rs.servers.Zone); err != nil {
+		return nil, err
+	}
+
+	// create new msg safer, sometimes received weird responses
 	m := new(dns.Msg) // return clean empty response instead of malformed data
 
 	m.Question = rs.req.Question
